@@ -139,20 +139,20 @@ type fakeConn struct {
 	laddr, raddr  ma.Multiaddr
 }
 
-func (c *fakeConn) Close() error                                 { return nil }
-func (c *fakeConn) CloseWithError(network.ConnErrorCode) error   { return nil }
-func (c *fakeConn) ID() string                                   { return "c16-conn" }
-func (c *fakeConn) GetStreams() []network.Stream                 { return nil }
-func (c *fakeConn) IsClosed() bool                               { return false }
-func (c *fakeConn) As(any) bool                                  { return false }
-func (c *fakeConn) LocalPeer() peer.ID                           { return c.local }
-func (c *fakeConn) RemotePeer() peer.ID                          { return c.remote }
-func (c *fakeConn) RemotePublicKey() ic.PubKey                   { return nil }
-func (c *fakeConn) ConnState() network.ConnectionState           { return network.ConnectionState{} }
-func (c *fakeConn) LocalMultiaddr() ma.Multiaddr                 { return c.laddr }
-func (c *fakeConn) RemoteMultiaddr() ma.Multiaddr                { return c.raddr }
-func (c *fakeConn) Stat() network.ConnStats                      { return network.ConnStats{} }
-func (c *fakeConn) Scope() network.ConnScope                     { return &network.NullScope{} }
+func (c *fakeConn) Close() error                               { return nil }
+func (c *fakeConn) CloseWithError(network.ConnErrorCode) error { return nil }
+func (c *fakeConn) ID() string                                 { return "c16-conn" }
+func (c *fakeConn) GetStreams() []network.Stream               { return nil }
+func (c *fakeConn) IsClosed() bool                             { return false }
+func (c *fakeConn) As(any) bool                                { return false }
+func (c *fakeConn) LocalPeer() peer.ID                         { return c.local }
+func (c *fakeConn) RemotePeer() peer.ID                        { return c.remote }
+func (c *fakeConn) RemotePublicKey() ic.PubKey                 { return nil }
+func (c *fakeConn) ConnState() network.ConnectionState         { return network.ConnectionState{} }
+func (c *fakeConn) LocalMultiaddr() ma.Multiaddr               { return c.laddr }
+func (c *fakeConn) RemoteMultiaddr() ma.Multiaddr              { return c.raddr }
+func (c *fakeConn) Stat() network.ConnStats                    { return network.ConnStats{} }
+func (c *fakeConn) Scope() network.ConnScope                   { return &network.NullScope{} }
 func (c *fakeConn) NewStream(context.Context) (network.Stream, error) {
 	return nil, errors.New("c16 fake conn: no streams")
 }
@@ -269,14 +269,14 @@ func (s *srvStream) SetDeadline(t time.Time) error {
 	s.in.kick()
 	return nil
 }
-func (s *srvStream) SetReadDeadline(t time.Time) error  { return s.SetDeadline(t) }
-func (s *srvStream) SetWriteDeadline(time.Time) error   { return nil }
-func (s *srvStream) ID() string                         { return "c16-stream" }
-func (s *srvStream) Protocol() protocol.ID              { return dialProtocol }
-func (s *srvStream) SetProtocol(protocol.ID) error      { return nil }
-func (s *srvStream) Stat() network.Stats                { return network.Stats{Direction: network.DirInbound} }
-func (s *srvStream) Conn() network.Conn                 { return s.conn }
-func (s *srvStream) Scope() network.StreamScope         { return &network.NullScope{} }
+func (s *srvStream) SetReadDeadline(t time.Time) error { return s.SetDeadline(t) }
+func (s *srvStream) SetWriteDeadline(time.Time) error  { return nil }
+func (s *srvStream) ID() string                        { return "c16-stream" }
+func (s *srvStream) Protocol() protocol.ID             { return dialProtocol }
+func (s *srvStream) SetProtocol(protocol.ID) error     { return nil }
+func (s *srvStream) Stat() network.Stats               { return network.Stats{Direction: network.DirInbound} }
+func (s *srvStream) Conn() network.Conn                { return s.conn }
+func (s *srvStream) Scope() network.StreamScope        { return &network.NullScope{} }
 
 // snapshot returns (bytes consumed by the server so far, length of the server's output so far).
 func (s *srvStream) snapshot() (consumed int64, outLen int) {
@@ -364,12 +364,14 @@ func newSrvHost(id peer.ID) *srvHost {
 	return &srvHost{id: id, bus: eventbus.NewBus(), handlers: map[protocol.ID]network.StreamHandler{}}
 }
 
-func (h *srvHost) ID() peer.ID                      { return h.id }
-func (h *srvHost) Peerstore() peerstore.Peerstore   { return nil }
-func (h *srvHost) Addrs() []ma.Multiaddr            { return nil }
-func (h *srvHost) Network() network.Network         { return nil }
-func (h *srvHost) Mux() protocol.Switch             { return nil }
-func (h *srvHost) Connect(context.Context, peer.AddrInfo) error { return errors.New("c16: serving host does not dial") }
+func (h *srvHost) ID() peer.ID                    { return h.id }
+func (h *srvHost) Peerstore() peerstore.Peerstore { return nil }
+func (h *srvHost) Addrs() []ma.Multiaddr          { return nil }
+func (h *srvHost) Network() network.Network       { return nil }
+func (h *srvHost) Mux() protocol.Switch           { return nil }
+func (h *srvHost) Connect(context.Context, peer.AddrInfo) error {
+	return errors.New("c16: serving host does not dial")
+}
 func (h *srvHost) SetStreamHandler(p protocol.ID, f network.StreamHandler) {
 	h.mu.Lock()
 	h.handlers[p] = f
@@ -425,11 +427,11 @@ func newDialerHost(sess *session, id peer.ID) *dialerHost {
 	return d
 }
 
-func (d *dialerHost) ID() peer.ID                    { return d.id }
-func (d *dialerHost) Peerstore() peerstore.Peerstore { return d.ps }
-func (d *dialerHost) Addrs() []ma.Multiaddr          { return nil }
-func (d *dialerHost) Network() network.Network       { return d.nw }
-func (d *dialerHost) Mux() protocol.Switch           { return nil }
+func (d *dialerHost) ID() peer.ID                                         { return d.id }
+func (d *dialerHost) Peerstore() peerstore.Peerstore                      { return d.ps }
+func (d *dialerHost) Addrs() []ma.Multiaddr                               { return nil }
+func (d *dialerHost) Network() network.Network                            { return d.nw }
+func (d *dialerHost) Mux() protocol.Switch                                { return nil }
 func (d *dialerHost) SetStreamHandler(protocol.ID, network.StreamHandler) {}
 func (d *dialerHost) SetStreamHandlerMatch(protocol.ID, func(protocol.ID) bool, network.StreamHandler) {
 }
@@ -446,8 +448,7 @@ func (d *dialerHost) dial(ctx context.Context, method string, p peer.ID, extra [
 	if len(extra) > 0 {
 		d.ps.AddAddrs(p, extra, peerstore.TempAddrTTL)
 	}
-	addrs := d.ps.Addrs(p)
-	sc := d.sess.recordDial(method, p, addrs)
+	sc, addrs := d.sess.recordDial(method, p, d.ps.Addrs)
 	if len(addrs) == 0 {
 		return errors.New("c16 dialer: no addresses")
 	}
@@ -532,13 +533,13 @@ func (n *dialerNetwork) CanDial(p peer.ID, a ma.Multiaddr) bool {
 	n.d.sess.canDialCalls.Add(1)
 	return n.d.sess.cfg.canDial(a)
 }
-func (n *dialerNetwork) Close() error                            { return nil }
-func (n *dialerNetwork) SetStreamHandler(network.StreamHandler)  {}
+func (n *dialerNetwork) Close() error                           { return nil }
+func (n *dialerNetwork) SetStreamHandler(network.StreamHandler) {}
 func (n *dialerNetwork) NewStream(ctx context.Context, p peer.ID) (network.Stream, error) {
 	return n.d.newStream(ctx, "Network.NewStream", p)
 }
-func (n *dialerNetwork) Listen(...ma.Multiaddr) error          { return nil }
-func (n *dialerNetwork) ListenAddresses() []ma.Multiaddr       { return nil }
+func (n *dialerNetwork) Listen(...ma.Multiaddr) error    { return nil }
+func (n *dialerNetwork) ListenAddresses() []ma.Multiaddr { return nil }
 func (n *dialerNetwork) InterfaceListenAddresses() ([]ma.Multiaddr, error) {
 	return nil, nil
 }
